@@ -2191,7 +2191,7 @@ class SparseVector:
                 value = dct[0]
                 new = {i: value / j for i, j in other_dct.items()}
             else:
-                new = dct
+                new = {}
             size = other_size
         elif other_size == 1:
             if 0 in other_dct: 
